@@ -557,6 +557,13 @@ impl rustc_driver::Callbacks for Cb {
                         J::Null
                     };
                     let generics = if is_closure { 0 } else { tcx.generics_of(did).count() };
+                    let mut gnames = Vec::new();
+                    if !is_closure {
+                        let g = tcx.generics_of(did);
+                        for i in 0..g.count() {
+                            gnames.push(s(g.param_at(i, tcx).name.to_string()));
+                        }
+                    }
                     let mut v = vec![
                         ("id", s(did_id(tcx, did))),
                         ("path", s(did_path(tcx, did))),
@@ -567,6 +574,7 @@ impl rustc_driver::Callbacks for Cb {
                         ("unsafe", J::B(unsafe_fn)),
                         ("impl", imp),
                         ("generics", J::I(generics as i128)),
+                        ("generic_names", J::A(gnames)),
                         ("attrs", s(format!("{:?}", tcx.codegen_fn_attrs(did).flags))),
                         ("span", cx.span(tcx.def_span(did))),
                     ];
